@@ -6,6 +6,9 @@ import Driver.C22
 import Driver.C34
 import Driver.C29
 import Driver.C30
+import Driver.C05
+import Driver.C31
+import Driver.C07
 /-
   Model driver: reads one request per line on stdin (`<suite> <op> <args…>`), answers one
   line per request on stdout.  Imports models only (no Mathlib, no proofs).
@@ -21,6 +24,9 @@ def dispatch (fs : List String) : String :=
   | "c34" :: rest => Driver.c34 rest
   | "c29" :: rest => Driver.c29 rest
   | "c30" :: rest => Driver.c30 rest
+  | "c05" :: rest => Driver.c05 rest
+  | "c31" :: rest => Driver.c31 rest
+  | "c07" :: rest => Driver.c07 rest
   | _ => "bad-op"
 
 partial def loop (h : IO.FS.Stream) (out : IO.FS.Stream) : IO Unit := do
